@@ -48,7 +48,8 @@ func init() {
 
 // H_dbg: scratch harness for engine debugging.
 func H_dbg(p []int) {
-	out := fmt.Sprintf("%t", (*int)(nil))
+	s := vBytes(2)
+	out := redact.Sprintf("%5\xba", string(s), 7, redact.Safe(string(s)))
 	vObserve("out", []byte(out))
 }
 
